@@ -221,11 +221,25 @@ impl<W: 'static, R: 'static, T: 'static> XGenerator<W, R, T> {
             }),
             Self::Repeat(gen) => either_i({
                 let gen = to_native!(gen, Self);
-                iter::repeat_with(move || {
-                    let inner: BIter<_, _, _> = Box::new(gen._iter(ns, rt.clone()));
-                    inner
+                let mut current: BIter<_, _, _> = Box::new(gen._iter(ns, rt.clone()));
+                let mut yielded = false;
+                iter::from_fn(move || loop {
+                    match current.next() {
+                        Some(v) => {
+                            yielded = true;
+                            return Some(v);
+                        }
+                        None => {
+                            if !yielded {
+                                // an empty generator repeats to an empty generator
+                                // (restarting it forever would never yield and never return)
+                                return None;
+                            }
+                            yielded = false;
+                            current = Box::new(gen._iter(ns, rt.clone()));
+                        }
+                    }
                 })
-                .flatten()
             }),
             Self::TakeWhile(gen, func) => either_j({
                 let inner: BIter<_, _, _> = Box::new(to_native!(gen, Self)._iter(ns, rt.clone()));
